@@ -444,6 +444,8 @@ FmtFamily(fmt) ==
 A_RoundTrip(C, fmt) ==
   LET fam == FmtFamily(fmt) IN
   IF fam = "pickle" THEN Ok(C)
+  \* (annotation token 7 is a nested dictionary: not an identifiers.org-style entry, SBML cannot carry it)
+  ELSE IF fam = "sbml" /\ (\E x \in AllIds : C.ann[x] = 7) THEN FailLoose(C, "skip")
   ELSE Ok([C EXCEPT !.solver = "glpk", !.xcols = {}, !.xrows = {}, !.tol = 7,
                     \* the documents list the compartments that hold a metabolite (model.compartments)
                     !.cname = [c \in 1..3 |-> IF \E m \in C.mets : C.attr[m].comp \in {c, Wild} THEN C.cname[c] ELSE 0],
@@ -458,7 +460,8 @@ A_RoundTrip(C, fmt) ==
 ArithResult(C, kind, r, q, k) ==
   LET rl == IF C.rule[r].k # "none" /\ C.rule[q].k # "none" THEN And2(C.rule[r], C.rule[q])
             ELSE IF C.rule[r].k # "none" THEN C.rule[r] ELSE C.rule[q] IN
-  CASE kind = "copy" -> [S |-> C.S[r], lb |-> C.lb[r], ub |-> C.ub[r], rule |-> C.rule[r]]
+  \* ("radd0": 0 + r, "sum1": sum([r]) -- reflected addition starts from a copy of r, like every other arithmetic)
+  CASE kind \in {"copy", "radd0", "sum1"} -> [S |-> C.S[r], lb |-> C.lb[r], ub |-> C.ub[r], rule |-> C.rule[r]]
     [] kind = "add"  -> [S |-> [m \in MetU |-> C.S[r][m] + C.S[q][m]], lb |-> C.lb[r], ub |-> C.ub[r], rule |-> rl]
     [] kind = "sub"  -> [S |-> [m \in MetU |-> C.S[r][m] - C.S[q][m]], lb |-> C.lb[r], ub |-> C.ub[r], rule |-> C.rule[r]]
     [] kind = "mul"  -> [S |-> [m \in MetU |-> C.S[r][m] * k],
@@ -678,6 +681,7 @@ Apply(op, St) ==
   ELSE IF op.a = "RoundTrip" /\ Len(St.ctx[s]) > 0 THEN Skip(St)      \* the loaded model replaces the object
   ELSE IF op.a = "SaveDoc" THEN        \* export now ...
      IF ~IsModel(St.m[s]) \/ St.helper[s] # 0 THEN Skip(St)
+     ELSE IF FmtFamily(op.fmt) = "sbml" /\ (\E x \in AllIds : St.m[s].ann[x] = 7) THEN Skip(St)
      ELSE SRes([St EXCEPT !.doc = [c |-> St.m[s], fmt |-> op.fmt]], "none", TRUE, NoRet)
   \* (r (+|-|*) q of slot s) renamed to op.new and added to the model of slot op.t: the detached result must not
   \* tie the two models together
